@@ -9,7 +9,7 @@ import (
 const (
 	galaxyPrefix = "tkestack.io/galaxy/"
 	dumpMarker   = "=== FUZZMON DUMP "
-	dumpEnd      = "=== FUZZMON DUMP END ==="
+	dumpEnd      = "=== FUZZMON END OF DUMPS ==="
 )
 
 var closureRe = regexp.MustCompile(`\.func\d+(\.\d+)*$`)
